@@ -257,7 +257,7 @@ Proof.
   set (s1 := set_erdl _ s).
   assert (I1 : Inv s1) by (eapply Inv_view; [apply sv_set_erdl|auto]).
   destruct (ep_filter_spec rep [] (ereg s)) as [ND Hr].
-  apply (read_ep_walk (ep_filter [] (ereg s) rep) s1 I1 B ND); auto.
+  apply (read_ep_walk (ep_filter [] (ereg s) rep) s1 I1 B ND) with (e := e); auto.
   intros z Hz. apply Hr; auto.
 Qed.
 
